@@ -113,6 +113,7 @@ def run_tlc(
     extra: list[str] | None = None,
     tag: str = '',
     coverage: bool = False,
+    xmx: str = '6g',
 ) -> TlcResult:
     """Run TLC on spec/<module>.tla with the configuration text `cfg`.  Returns the parsed
     result; raises MachineryError when TLC itself fails (parse error, evaluation error)."""
@@ -122,7 +123,7 @@ def run_tlc(
         cfg_path = work / f'{module}.cfg'
         cfg_path.write_text(cfg)
         cmd = [
-            'java', '-XX:+UseParallelGC', f'-XX:ParallelGCThreads={max(2, workers)}', '-Xss64m', '-Xmx6g', '-cp', TLA_CP,
+            'java', '-XX:+UseParallelGC', f'-XX:ParallelGCThreads={max(2, workers)}', '-Xss64m', f'-Xmx{xmx}', '-cp', TLA_CP,
             '-Dtlc2.tool.fp.FPSet.impl=tlc2.tool.fp.OffHeapDiskFPSet',
             'tlc2.TLC', '-workers', str(workers), '-metadir', str(work / 'meta'),
             '-noGenerateSpecTE', '-config', str(cfg_path),
@@ -143,12 +144,17 @@ def run_tlc(
         if env:
             e.update({k: str(v) for k, v in env.items()})
         t0 = time.time()
-        try:
-            proc = subprocess.run(
-                cmd, cwd=SPEC, env=e, capture_output=True, text=True, timeout=timeout
-            )
-        except subprocess.TimeoutExpired as exc:
-            raise MachineryError(f'TLC timed out on {module} after {timeout}s') from exc
+        for attempt in (1, 2):
+            try:
+                proc = subprocess.run(
+                    cmd, cwd=SPEC, env=e, capture_output=True, text=True, timeout=timeout
+                )
+            except subprocess.TimeoutExpired as exc:
+                raise MachineryError(f'TLC timed out on {module} after {timeout}s') from exc
+            if proc.returncode not in (-9, 137) or attempt == 2:
+                break
+            time.sleep(20)        # killed from outside (memory pressure from concurrent jobs): once more, alone in time
+            shutil.rmtree(work / 'meta', ignore_errors=True)
         res = parse_tlc_output(proc.stdout)
         res.wall = time.time() - t0
         if simulate and proc.returncode == 0:
